@@ -344,7 +344,7 @@ class ProgEngine(TermEngine):
         return super().ev(e, env, pc)
 
     # ------------------------------------------------------------------ statements
-    _CONCRETE_CALLS = {"np.ones", "np.zeros", "list", "range", "len", "sum", "zip", "int"}
+    _CONCRETE_CALLS = {"np.ones", "np.zeros", "np.prod", "np.int_", "list", "range", "len", "sum", "zip", "int"}
     _CONCRETE_METHODS = {"astype", "flatten", "tolist"}
 
     def _concrete(self, node, env):
@@ -391,7 +391,11 @@ class ProgEngine(TermEngine):
         except Exception:
             return None
         if isinstance(v, _np.ndarray):
-            return None  # only plain Python results are kept (a later .tolist() produces them)
+            if v.ndim == 1 and v.dtype.kind in "iu" and any(isinstance(n, ast.Call) and ast.unparse(n.func) == "np.int_" for n in ast.walk(node)):
+                return [int(x) for x in v]  # np.int_(list of ints): kept as the list of ints it stands for
+            return None  # otherwise only plain Python results are kept (a later .tolist() produces them)
+        if isinstance(v, (_np.integer,)) or (isinstance(v, int) and not isinstance(v, bool)):
+            return int(v)
         if isinstance(v, list) and all(isinstance(x, (int, _np.integer)) for x in v):
             return [int(x) for x in v]
         return None
@@ -505,6 +509,18 @@ class ProgEngine(TermEngine):
             return self._iterable(e, env, pc)
         if isinstance(f, ast.Name) and f.id == "has_same_dimension":
             return self.opaque_pred(e, env)
+        if isinstance(f, ast.Name) and f.id in ("int", "float") and len(e.args) == 1 and not e.keywords:
+            v0 = self.ev(e.args[0], env, pc)
+            if isinstance(v0, (int, float)) and not isinstance(v0, bool):
+                return int(v0) if f.id == "int" else float(v0)
+            if is_z3(v0):
+                return v0
+        if isinstance(f, ast.Name) and f.id in getattr(self.c, "validation_calls", ()):
+            return None  # an argument check that raises or returns: assumed to pass (listed in the contract's requires)
+        if isinstance(f, ast.Name) and f.id == "isinstance" and len(e.args) == 2 and isinstance(e.args[1], ast.Name) and e.args[1].id in ("int", "list", "float"):
+            v0 = self.ev(e.args[0], env, pc)
+            if isinstance(v0, (int, float, list)) and not isinstance(v0, bool):
+                return isinstance(v0, {"int": int, "list": list, "float": float}[e.args[1].id])
         if isinstance(f, ast.Name) and f.id in getattr(self.c, "local_builders", ()):
             if e.args:
                 raise Unsupported("positional call of a builder")
